@@ -132,7 +132,8 @@ CORRUPT_KINDS = ('empty', 'trunc', 'nulpad', 'torn', 'foreign')
 FILE_KINDS = ('good',) + CORRUPT_KINDS       # states in which a regular file is at the path
 
 
-COUNTERS = {'sweep_files': 0, 'sweep_truncation_points': 0}
+COUNTERS = {'sweep_files': 0, 'sweep_truncation_points': 0, 'rewrite_sweep_files': 0,
+            'rewrite_sweep_crash_points': 0}
 
 
 def setup(tier):
@@ -247,7 +248,7 @@ def _hist(draw, max_ops):
 @st.composite
 def _sweep(draw):
     return {'kind': 'sweep', 'fname': draw(st.sampled_from(FNAMES)), 'tasks': draw(_tasks()),
-            'variant': draw(st.sampled_from(['trunc', 'trunc', 'nulpad']))}
+            'variant': draw(st.sampled_from(['trunc', 'trunc', 'nulpad', 'rewrite']))}
 
 
 def strategy(tier):
@@ -785,6 +786,47 @@ def _run_sweep(case, world):
     world.read(names)
 
 
+def _run_rewrite_sweep(case, world):
+    """Complete write of run 1; then, for every task that is DONE with an output directory
+    and EVERY byte count k, run 2 (same entry, two values replaced by others of the SAME
+    pickled length) is interrupted after k bytes of that task's file, the result is read and
+    judged, and the file of run 1 is written again.  An implementation that overwrites the old
+    file in place leaves 'new prefix + old suffix' here, which may unpickle."""
+    for spec in case['tasks']:
+        name = spec['name']
+        if name in world.mem:
+            world.set_task(name, dict(world.mem[name], extra=dict(
+                world.mem[name]['extra'], stamp='result-of-run-1', elapsed=11.5)))
+    world.step = 'complete write of run 1'
+    world.write()
+    world.read(list(world.pool))
+    names = list(world.pool)
+    for tnum, name in enumerate(world.pool):
+        state = world.disk[name]
+        if state['kind'] != 'good' or state['admit'][0]['status'] != 'DONE':
+            continue
+        path = world.path(name)
+        if not os.path.isfile(path):
+            continue
+        size = os.path.getsize(path)
+        first = dict(world.mem[name])
+        second = dict(first, extra=dict(first['extra'], stamp='result-of-run-2', elapsed=22.5))
+        world.labels.add('rewrite-sweep-target')
+        COUNTERS['rewrite_sweep_files'] += 1
+        COUNTERS['rewrite_sweep_crash_points'] += size
+        for cut in range(size):
+            world.set_task(name, second)
+            world.step = f'run 2 interrupted after {cut} of {size} bytes of the file of task {tnum}'
+            world.write({'i': tnum, 'after': cut, 'errno': 'ENOSPC', 'mode': 'kill'})
+            world.read(names)
+            world.from_file_all(only=[name])
+            world.set_task(name, first)
+            world.step = f'run 1 written again (after crash point {cut})'
+            world.write()
+    world.step = 'after the rewrite sweep'
+    world.read(names)
+
+
 def run_case(case):
     out = Outcome()
     PLAN.reset()
@@ -795,7 +837,10 @@ def run_case(case):
         os.mkdir(root)
         world = World(case, root, out)
         try:
-            if case['kind'] == 'sweep':
+            if case['kind'] == 'sweep' and case['variant'] == 'rewrite':
+                world.labels.add('sweep:rewrite')
+                _run_rewrite_sweep(case, world)
+            elif case['kind'] == 'sweep':
                 world.labels.add('sweep:' + case['variant'])
                 _run_sweep(case, world)
             else:
@@ -827,6 +872,8 @@ def shard_extra(tier, seed, shard, nshards, tally, deadline):
     """Extra coverage keys: how many files were swept over ALL their truncation points."""
     return {'sweep_files': COUNTERS['sweep_files'],
             'sweep_truncation_points': COUNTERS['sweep_truncation_points'],
+            'rewrite_sweep_files': COUNTERS['rewrite_sweep_files'],
+            'rewrite_sweep_crash_points': COUNTERS['rewrite_sweep_crash_points'],
             'sweep_is_complete_per_file': True}
 
 
